@@ -2,7 +2,11 @@
 
 package resolve
 
-import "sync/atomic"
+import (
+	"sync/atomic"
+
+	"github.com/wundergraph/astjson"
+)
 
 // Verification hooks (build tag "verif" only): yield points inside the concurrency-critical
 // functions, so that a harness can park goroutines there and release them in a chosen order.
@@ -39,4 +43,13 @@ func VerifRegistrySizes(r *Resolver) (triggers, subscriptionsByID, connections i
 func VerifIsDeferAncestor(descriptors map[int]DeferDescriptor, fieldDeferID, parentID int) bool {
 	r := &Resolvable{deferDescriptors: descriptors}
 	return r.isDeferAncestor(fieldDeferID, parentID)
+}
+
+// VerifFilterOutTainted runs taintedObjects.filterOutTainted with the given values marked as tainted.
+func VerifFilterOutTainted(items []*astjson.Value, tainted []*astjson.Value) []*astjson.Value {
+	t := taintedObjects{}
+	for _, v := range tainted {
+		t.add(v)
+	}
+	return t.filterOutTainted(items)
 }
